@@ -409,6 +409,20 @@ ConcVerdict(c) ==
   ELSE (IF x.mismatches > 0 \/ x.errors > 0 THEN <<"C19:a goroutine obtained a different result than running alone">> ELSE <<>>)
        \o (IF x.uses_global \/ x.reused_ids > 0 THEN <<"C19:a type registry is shared between instances (ownership violated)">> ELSE <<>>)
 
+\* ---- kind "goreuse" (C17: iterator and unfolder) -------------------------------------
+GoReuseVerdict(c) ==
+  LET x == c.extra IN
+  IF c.outcome # "ok" THEN <<"C17:outcome:" \o c.outcome>>
+  ELSE IF x.histerr # "" THEN <<>>
+  ELSE IF (x.errR = "") # (x.errF = "") THEN <<"C17:the probe succeeds on one of reused/fresh instance and fails on the other">>
+  ELSE IF c.sub.component = "iter"
+       THEN (IF x.errR = "" /\ ~SeqEquiv({"nan"}, Values(x.evF), Values(x.evR))
+             THEN <<"C17:reused iterator emits a different value than a fresh one">> ELSE <<>>)
+            \o (IF x.errR = "" /\ CRun(x.evR).ok # CRun(x.evF).ok THEN <<"C17:reused iterator emits a differently formed stream than a fresh one">> ELSE <<>>)
+       ELSE (IF x.errR = "" /\ x.rR # x.rF THEN <<"C17:reused unfolder builds a different value than a fresh one">> ELSE <<>>)
+            \o (IF \E j \in 1..(Len(x.deps) - (IF x.errR = "" THEN 0 ELSE 1)) : x.deps[j] # x.idle     \* completed documents only
+                THEN <<"C17:a nesting stack is not back at its idle depth after a completed document">> ELSE <<>>)
+
 \* ---- the trace machine ----------------------------------------------------------
 Verdict(c) ==
   CASE c.kind = "parse" -> ParseVerdict(c)
@@ -424,6 +438,7 @@ Verdict(c) ==
     [] c.kind = "keycache" -> KeyCacheVerdict(c)
     [] c.kind = "unfoldx" -> UnfoldXVerdict(c)
     [] c.kind = "alias" -> AliasVerdict(c)
+    [] c.kind = "goreuse" -> GoReuseVerdict(c)
     [] c.kind = "conc" -> ConcVerdict(c)
     [] OTHER -> <<"INFRA:unknown case kind">>
 
